@@ -19,9 +19,9 @@ pub struct PlanEntry {
 pub fn plan(prop: &str) -> Vec<PlanEntry> {
     let p = |family, weight| PlanEntry { family, weight };
     match prop {
-        "C01" => vec![p("rc-mixed", 5), p("rc-weak", 2), p("rc-bulk", 1), p("dir-t4", 1), p("dir-t3", 2), p("dir-t1", 1), p("dir-t7", 1), p("client", 1)],
+        "C01" => vec![p("rc-mixed", 5), p("rc-weak", 2), p("rc-bulk", 1), p("dir-t4", 1), p("dir-t3", 2), p("dir-t1", 1), p("dir-t7", 1), p("dir-t8", 1), p("client", 1)],
         "C02" => vec![p("rc-mixed", 3), p("rc-weak", 1), p("dir-t1", 3), p("dir-t2", 3), p("dir-t3", 1), p("dir-t5", 1), p("dir-t8", 2), p("dir-t9", 1), p("dir-t10", 1), p("client", 2)],
-        "C03" => vec![p("rc-weak", 4), p("rc-mixed", 1), p("dir-t4", 2), p("dir-t7", 3)],
+        "C03" => vec![p("rc-weak", 4), p("rc-mixed", 1), p("dir-t4", 2), p("dir-t7", 3), p("dir-t8", 1), p("dir-t10", 1)],
         "C04" => vec![p("rc-mixed", 3), p("rc-bulk", 2), p("rc-weak", 2), p("tls", 1), p("dir-t6", 1), p("dir-t7", 1), p("dir-t4", 1), p("client", 1)],
         "C05" => vec![p("rc-weak", 8), p("dir-t3", 8), p("rc-mixed", 2), p("dir-t7", 2), p("dir-t2", 3), p("dir-t5", 3), p("chain-weak", 1)],
         "C06" => vec![p("chain", 1)],
@@ -31,12 +31,12 @@ pub fn plan(prop: &str) -> Vec<PlanEntry> {
         "C10" => vec![p("rc-bulk", 1)],
         "C12" => vec![p("agesweep", 4), p("rc-mixed", 2), p("rc-bulk", 1), p("dir-t6", 2), p("dir-t9", 1)],
         "C13" => vec![p("ebr", 3), p("ebr-churn", 2), p("ebr-longcs", 3), p("ebr-private", 1), p("rc-mixed", 1), p("dir-t9", 1)],
-        "C14" => vec![p("ebr", 2), p("ebr-churn", 3), p("ebr-longcs", 2), p("guards", 1), p("rc-mixed", 1), p("rc-bulk", 1), p("dir-t6", 1)],
-        "C15" => vec![p("ebr", 3), p("ebr-churn", 2), p("ebr-private", 2), p("tls", 1)],
+        "C14" => vec![p("ebr", 2), p("ebr-churn", 3), p("ebr-longcs", 2), p("dir-t12", 2), p("guards", 1), p("rc-mixed", 1), p("rc-bulk", 1), p("dir-t6", 1)],
+        "C15" => vec![p("ebr", 3), p("ebr-churn", 2), p("ebr-private", 2), p("tls", 1), p("dir-t13", 1)],
         "C16" => vec![p("guards", 4), p("ebr", 1), p("ebr-longcs", 2), p("rc-mixed", 1), p("dir-t6", 1)],
         "C17" => vec![p("queue", 1)],
-        "C18" => vec![p("list", 3), p("ebr-churn", 2)],
-        "C20" => vec![p("tls", 6), p("ebr-churn", 2), p("dir-t10", 1), p("dir-t11", 1)],
+        "C18" => vec![p("list", 3), p("ebr-churn", 2), p("dir-t12", 1)],
+        "C20" => vec![p("tls", 6), p("ebr-churn", 2), p("dir-t10", 1), p("dir-t11", 1), p("dir-t13", 1)],
         _ => vec![],
     }
 }
@@ -267,7 +267,7 @@ impl Agg {
     }
 }
 
-fn first_record(desc: &RunDesc, r: &RunResult, sig: &str, props: Vec<String>, detail: &str) -> J {
+pub fn first_record(desc: &RunDesc, r: &RunResult, sig: &str, props: Vec<String>, detail: &str) -> J {
     let mut d = desc.clone();
     d.schedule = Some(r.sched.clone());
     d.buggify_script = Some(r.buggify.clone());
